@@ -11,7 +11,7 @@
    [enc_doc] of it; the JSON text of a document is a library step outside the
    model). All theorems are proved by induction over the history. *)
 From Coq Require Import ZArith NArith List Bool.
-From FV.Model Require Import Bytes Bson Metrics Codec Collector CollectorOk Instance UncOk.
+From FV.Model Require Import Bytes Bson Metrics Codec Collector Wf RoundTrip CollectorOk Instance UncOk.
 From FV.Proofs Require Import UncProofs.
 Import ListNotations.
 Open Scope Z_scope.
@@ -145,6 +145,48 @@ Theorem C17_unmixed : forall k n fs ops, unc_kind k = true -> sdyn_kind k = true
   recs_unmixed a /\ one_schema (a_pend a).
 Proof. exact (unc_unmixed deflate). Qed.
 
+(* C08 for these kinds, whole sequence: for Add d1 .. Add dk; Flush on a
+   schema-aware kind (no metadata, acknowledging writer) every document is accepted
+   and the outputs are exactly the greedy groups of the input sequence - a new
+   output at each change of the metric signature and at capacity, nothing lost,
+   nothing mixed - provided documents of one signature have one top-level field
+   count and none is empty (otherwise C17_schema's RCount case applies).
+   groups_from states the boundaries on the documents themselves; its sizes are
+   not formally related to CollectorOk.expected_sizes here. *)
+Theorem C17_groups : forall k n docs nows, unc_kind k = true -> sdyn_kind k = true -> 1 <= n ->
+  length nows = length docs ->
+  Forall (fun s : doc => s <> []) docs ->
+  (forall a b, In a docs -> In b docs -> schema_sig a = schema_sig b -> length a = length b) ->
+  let res := run deflate (init_state k n []) (add_ops docs nows ++ [OFlush]) in
+  snd res = map (fun _ => BAdd ROk) docs ++ [BFlush true] /\
+  w_log (snd (fst res)) = map (fun g => WFull (ODocs (kind_json k) g)) (groups_from n [] docs) /\
+  concat (groups_from n [] docs) = docs.
+Proof. exact (unc_sdyn_groups deflate). Qed.
+
+(* the executable oracle c17_step (Model/UncOk.v: the statement of C17 on the
+   observations Add result / writer log / Resolve / Info, which the driver applies
+   to the implementation) never fires on the model: for every rendering function
+   whose texts contain no newline, every history without SetMetadata(nil) (which
+   the library refuses and which hist.go never issues) passes all checks after
+   every operation: flavour, no trailing bytes, content = metadata ++ next
+   samples, one parseable line per sample, batch bound, no empty output, Resolve
+   present iff samples pending, Info, earlier records unchanged *)
+Theorem C17_oracle : forall render : doc -> bytes, (forall d, ~ In 10%N (render d)) ->
+  forall k n fs ops, unc_kind k = true -> 1 <= n ->
+  Forall (fun o => o <> OSetMeta None) ops -> c17_run render deflate k n fs ops = true.
+Proof. exact (fun render H => unc_oracle render H deflate). Qed.
+
+(* non-vacuity: a schema-aware BSON collector, batch size 2, with metadata, a
+   schema change (flush of [M;A1;A2]), an explicit flush ([M;B]), a Reset that
+   discards an accepted sample, a failing Resolve and a further Add *)
+Example C17_example :
+  let res := run deflate (init_state KSDynUncB 2 []) ex_ops in
+  w_log (snd (fst res)) = [WFull (ODocs false [ex_M; ex_A1; ex_A2]); WFull (ODocs false [ex_M; ex_B])] /\
+  snd res = [BSetMeta; BAdd ROk; BAdd ROk; BAdd ROk; BFlush true; BAdd ROk; BReset; BResolve None; BAdd ROk] /\
+  c_resolve deflate (fst (fst res)) = Some (ODocs false [ex_M; ex_A2]) /\
+  a_total (snd (spec_trace deflate (init_state KSDynUncB 2 []) aspec0 ex_ops)) = [ex_A1; ex_A2; ex_B; ex_A2].
+Proof. exact (unc_example deflate). Qed.
+
 End C17.
 
 Print Assumptions C17_log.
@@ -158,3 +200,5 @@ Print Assumptions C17_stream_room.
 Print Assumptions C17_full.
 Print Assumptions C17_schema.
 Print Assumptions C17_unmixed.
+Print Assumptions C17_groups.
+Print Assumptions C17_oracle.
